@@ -268,6 +268,12 @@ func build(c *Case) (*fox.Router, error) {
 
 // waitAll waits for the reads; on expiry the goroutine dump decides.
 func waitAll(done []chan struct{}, names []string, desc string) error {
+	return waitFor(done, names, desc, "read", "while the write transaction was held open", "reader")
+}
+
+// waitFor waits for the goroutines started through runRead; one that does not finish is a violation only when its stack
+// shows it waiting on a sync/channel primitive called directly from fox.
+func waitFor(done []chan struct{}, names []string, desc, what, when, who string) error {
 	deadline := time.After(20 * time.Second)
 	for i, d := range done {
 		select {
@@ -282,12 +288,12 @@ func waitAll(done []chan struct{}, names []string, desc string) error {
 				}
 				pending = append(pending, g)
 				if blockedInFox(g) {
-					return fmt.Errorf("%s: read %q did not complete while the write transaction was held open; a reader goroutine is blocked inside fox:\n%s", desc, names[i], g)
+					return fmt.Errorf("%s: %s %q did not complete %s; a %s goroutine is blocked inside fox:\n%s", desc, what, names[i], when, who, g)
 				}
 			}
 			inconclusive = true
-			stats.MarkInconclusive("reads did not complete in time but no reader is blocked inside fox")
-			return fmt.Errorf("%s: read %q did not complete within 20s but no reader is blocked inside fox (inconclusive); pending readers:\n%s", desc, names[i], strings.Join(pending, "\n\n"))
+			stats.MarkInconclusive(what + "s did not complete in time but no " + who + " is blocked inside fox")
+			return fmt.Errorf("%s: %s %q did not complete within 20s but no %s is blocked inside fox (inconclusive); pending:\n%s", desc, what, names[i], who, strings.Join(pending, "\n\n"))
 		}
 	}
 	return nil
@@ -488,28 +494,77 @@ func checkCase(c *Case, count bool) error {
 	if !f.Has("GET", "/second/writer") {
 		return fmt.Errorf("%s: the second writer's route is missing after both transactions finished", desc)
 	}
-	// writers do not wait for readers: with a read-only transaction open and an iterator suspended mid-way, a write completes
+	// writers wait only for other writers: with a View callback parked mid-way, a read-only transaction open and an iterator
+	// suspended, writes of every kind complete - growing, replacing and shrinking the route set, singly and in a transaction
 	rtx := f.Txn(false)
 	next, stop := iterPull(f)
 	next()
-	wd := make(chan struct{})
-	go func() { defer close(wd); _, _ = f.Handle("GET", "/third/writer", h) }()
-	select {
-	case <-wd:
-	case <-time.After(20 * time.Second):
-		buf := make([]byte, 4<<20)
-		buf = buf[:runtime.Stack(buf, true)]
+	viewParked, viewRelease, viewDone := make(chan struct{}), make(chan struct{}), make(chan struct{})
+	go func() {
+		defer close(viewDone)
+		_ = f.View(func(txn *fox.Txn) error {
+			txn.Has("GET", "/static")
+			close(viewParked)
+			<-viewRelease
+			txn.Len()
+			return nil
+		})
+	}()
+	cleanup := func() {
+		close(viewRelease)
 		stop()
 		rtx.Abort()
-		if strings.Contains(string(buf), "sync.(*Mutex).Lock") && strings.Contains(string(buf), "fox.(*Router).txnWith") {
-			return fmt.Errorf("%s: a write is blocked on the writer lock while only a read-only transaction and a suspended iterator are open", desc)
-		}
-		inconclusive = true
-		stats.MarkInconclusive("write did not complete in time, not blocked on the writer lock")
-		return fmt.Errorf("%s: write did not complete within 20s (inconclusive)", desc)
 	}
-	stop()
-	rtx.Abort()
+	select {
+	case <-viewParked:
+	case <-time.After(20 * time.Second):
+		cleanup()
+		inconclusive = true
+		stats.MarkInconclusive("the View callback did not start")
+		return fmt.Errorf("%s: the View callback did not start (inconclusive)", desc)
+	}
+	writes := []read{
+		{"Router.Handle", func() { _, _ = f.Handle("GET", "/third/writer", h); _, _ = f.Handle("BREW", "/third/pot", h) }},
+		{"Router.Update", func() { _, _ = f.Update("GET", "/third/writer", h) }},
+		{"Router.Delete", func() { _, _ = f.Delete("GET", "/third/writer") }},
+		{"Router.Updates registering two routes and deleting three", func() {
+			_ = f.Updates(func(txn *fox.Txn) error {
+				_, _ = txn.Handle("GET", "/third/a", h)
+				_, _ = txn.Handle("GET", "/third/b", h)
+				_, _ = txn.Delete("GET", "/third/a")
+				_, _ = txn.Delete("GET", "/third/b")
+				_, _ = txn.Delete("GET", "/second/writer")
+				return nil
+			})
+		}},
+		{"Router.Updates truncating a method", func() { _ = f.Updates(func(txn *fox.Txn) error { return txn.Truncate("BREW") }) }},
+		{"Txn(true) ... Commit after an Update only", func() {
+			txn := f.Txn(true)
+			defer txn.Abort()
+			_, _ = txn.Update("POST", "/static", h)
+			txn.Commit()
+		}},
+	}
+	for _, w := range writes {
+		d := make(chan struct{})
+		go runRead(w.fn, d)
+		if err := waitFor([]chan struct{}{d}, []string{w.name}, desc, "write", "while only a View callback, a read-only transaction and a suspended iterator were open", "writer"); err != nil {
+			cleanup()
+			return err
+		}
+		if count {
+			stats.Eval()
+			stats.NonTrivial(fmt.Sprintf("write:%s|%s|%+v", w.name, c.Stage, *c))
+		}
+	}
+	cleanup()
+	select {
+	case <-viewDone:
+	case <-time.After(20 * time.Second):
+		inconclusive = true
+		stats.MarkInconclusive("the View callback did not return after release")
+		return fmt.Errorf("%s: the View callback did not return after release (inconclusive)", desc)
+	}
 	return nil
 }
 
